@@ -22,10 +22,12 @@ CALL = {'abs', 'sqrt', 'exp', 'ln', 'pow', 'log', 'rise', 'fall'}
 _LEVEL = None
 
 
-def levels(path='/repo/rtamt/antlr/grammar/tl/StlParser.g4'):
+def levels(path=None):
     """precedence level of every alternative label = its position in the expression rule (earlier binds tighter)"""
     global _LEVEL
     if _LEVEL is None:
+        import os
+        path = path or os.path.join(os.environ.get('VERIF_REPO') or '/repo', 'rtamt/antlr/grammar/tl/StlParser.g4')
         g = open(path).read()
         body = g[g.index('\nexpression'):]
         _LEVEL = {a: i for i, a in enumerate(re.findall(r'#(\w+)', body))}
